@@ -165,8 +165,8 @@ func C09(p *core.Program, r *core.Report) {
 			continue
 		}
 		paths, atoms, _ := core.EnumerateDecisions(p, fn, core.DecisionOpts{IterateAt: hs[0], Outcome: noOutcome, Event: func(in ssa.Instruction, c *core.Canon) (string, bool) {
-			if core.IsCallTo(in, "(*bytes.Buffer).WriteString", "(*strings.Builder).WriteString") {
-				return "emit " + c.Of(in.(*ssa.Call).Call.Args[1]), true
+			if s, ok := sinkWritten(in, c); ok {
+				return "emit " + s, true
 			}
 			return "", false
 		}})
